@@ -4,7 +4,6 @@ use crate::fmt;
 use crate::sess::{frame, Close, Ev};
 use crate::util::*;
 use glonax::core::{Control, Engine, EngineState, ModuleStatus, Motion, Object, Rotator, Target};
-use glonax::protocol::frame::Session;
 use glonax::protocol::Packetize;
 
 /// One client frame with a description of its class (for the distribution statistics).
@@ -14,7 +13,12 @@ pub struct GenFrame {
 }
 
 pub fn session_frame(flags: u8, name: &str) -> GenFrame {
-    GenFrame { bytes: frame(0x10, &Session::new(flags, name.to_string()).to_bytes()), class: if flags & 0xE0 != 0 { "session-invalid" } else { "session" } }
+    // written out by hand (flags byte + the name's bytes, at most 64 characters as a client sends them): the generator
+    // must not run the code under test
+    let name: String = name.chars().take(64).collect();
+    let mut payload = vec![flags];
+    payload.extend_from_slice(name.as_bytes());
+    GenFrame { bytes: frame(0x10, &payload), class: if flags & 0xE0 != 0 { "session-invalid" } else { "session" } }
 }
 
 pub fn command_frame(rng: &mut Rng) -> GenFrame {
